@@ -656,10 +656,23 @@ def check_c16(tier, seed):
     res["distinct_nontrivial"] = a["res"]["distinct_nontrivial"] + shapes_run
     write_evidence(prop, tier, seed, "memory", res, violations, known_hits, wall, extra)
     missing = list(a["missing"])
-    if unknown:
-        for l in lines:
-            print(l)
-        harness_error("accessors returning &'a RefCell<Terminal> that the crash-shape table does not cover: %s" % ", ".join(unknown))
+    for acc in unknown:
+        # a terminal accessor with the same lifetime-extending signature that no crash shape covers:
+        # reported from the source scan (not from a simulated run - said so in the replay file)
+        sig = "C16|dangling|%s" % acc
+        if known_match(known, prop, sig):
+            lines.append("KNOWN-FINDING: property=%s %s [%s]" % (prop, known_match(known, prop, sig).get("what", ""), sig))
+            continue
+        dest_dir = os.path.join(REPLAYS, prop)
+        os.makedirs(dest_dir, exist_ok=True)
+        dest = os.path.join(dest_dir, "unlisted-accessor-%s.static" % acc.replace("::", "-"))
+        with open(dest, "w") as f:
+            f.write("# STATIC finding (source scan of /repo/src/devices*.rs, not a simulated run): a public accessor returns\n"
+                    "# &'a RefCell<Terminal<'a, E>> from &self, like the eleven known unsound ones, and no crash shape in\n"
+                    "# /verif/miri/src/bin/dangle.rs exercises it yet.\naccessor=%s\nexpect=%s\n" % (acc, sig))
+        violations += 1
+        lines.append("VIOLATION property=%s replay=%s" % (prop, dest))
+        lines.append("  signature=%s detail=new accessor with a lifetime not tied to &self (static scan; add a shape to miri/src/bin/dangle.rs)" % sig)
     finish(prop, tier, seed, lines, violations, len(known_hits), res["runs"], res["distinct_nontrivial"], wall, missing)
 
 
@@ -880,6 +893,12 @@ def main():
     if replay and replay.endswith(".c19"):
         kv = dict(l.strip().split("=", 1) for l in open(replay) if "=" in l and not l.startswith("#"))
         check_c19(kv.get("tier", "quick"), int(kv["seed"]), only_run=int(kv["run"]), only_mode=kv["mode"], only_build=kv["build"])
+    if replay and replay.endswith(".static"):
+        kv = dict(l.strip().split("=", 1) for l in open(replay) if "=" in l and not l.startswith("#"))
+        if kv.get("accessor") in scan_accessors():
+            print("VIOLATION property=%s replay=%s" % (prop, replay))
+            sys.exit(1)
+        sys.exit(0)
     if replay and replay.endswith(".miri"):
         if miri_replay(replay):
             print("VIOLATION property=%s replay=%s" % (prop, replay))
